@@ -85,6 +85,10 @@ Theorem C16_left_projector_nested (pre mid : tt R) i m q : linked 1 pre -> Foral
   sum_idx (shape pre) (fun j => rmul (kernelL pre i j) (chainM (slices (pre ++ mid) (j ++ m)) 0%nat q))
   = chainM (slices (pre ++ mid) (i ++ m)) 0%nat q.
 Proof. exact (kernelL_nested pre mid i m q). Qed.
+Theorem C16_projectors_commute (na nc : list nat) (KA KB : list nat -> list nat -> R) (f : list nat -> list nat -> R) a c :
+  sum_idx na (fun a' => rmul (KA a a') (sum_idx nc (fun c' => rmul (KB c c') (f a' c'))))
+  = sum_idx nc (fun c' => rmul (KB c c') (sum_idx na (fun a' => rmul (KA a a') (f a' c')))).
+Proof. exact (kernels_commute na nc KA KB f a c). Qed.
 End Kernel.
 
 Print Assumptions C16_proj_fixes.
@@ -97,3 +101,4 @@ Print Assumptions C16_left_projector_hermitian.
 Print Assumptions C16_left_projector_idempotent.
 Print Assumptions C16_left_projector_fixes.
 Print Assumptions C16_left_projector_nested.
+Print Assumptions C16_projectors_commute.
